@@ -43,7 +43,7 @@ INCRATE_FILES = {
 
 FN_RE = re.compile(r"pub fn (c\d\d_\w+)\(\)")
 MACRO_RE = re.compile(r"^\s*\w+!\(\s*(c\d\d_\w+)\s*,", re.M)
-ANN_RE = re.compile(r"@(\w+)(?:[ \t]+([^\n]*))?")
+ANN_RE = re.compile(r"@([\w-]+)(?:[ \t]+([^\n]*))?")
 
 
 def _scan_file(path):
@@ -72,7 +72,7 @@ def _scan_file(path):
                     k, v = am.group(1), (am.group(2) or "").strip()
                     if k in ("bound", "assume"):
                         ann[k].insert(0, v)
-                    elif k in ("tier", "timeout", "c20", "mem", "expect"):
+                    elif k in ("tier", "timeout", "c20", "mem", "expect", "vacuity-ok"):
                         ann[k] = v or True
             j -= 1
         ann["submod"] = sub
